@@ -114,7 +114,10 @@ pub fn any_line() -> impl Strategy<Value = GenLine> {
         let (prelude, line) = with_variable(v, k, n);
         GenLine { prelude, line, lang: "en".into(), tz: None, src: "C03".into() }
     });
+    // sentences with the operator words of either language (times, minus, add / çarpı, eksi, topla ...)
+    let c19 = crate::c19::opword_strategy().prop_map(|(line, lang)| GenLine { prelude: vec![], line, lang, tz: None, src: "C19".into() });
     prop_oneof![
+        2 => c19,
         3 => c02,
         2 => c05,
         3 => c06,
